@@ -1,66 +1,4 @@
-//! verif-driver: worker process of /verif/check.
-//!   verif-driver list
-//!   verif-driver run <Cxx> --tier quick|thorough --seed N --shard i --nshards n --out FILE [--idx K]
-#![allow(clippy::all)]
-#![allow(dead_code, unused_imports, unused_variables)]
-
-pub mod core;
-include!(concat!(env!("OUT_DIR"), "/gen.rs"));
-
-use crate::core::{Tier, WorkerArgs};
-
+//! verif-driver: worker process of /verif/check (see src/lib.rs).
 fn main() {
-    let args: Vec<String> = std::env::args().collect();
-    if args.len() < 2 {
-        eprintln!("usage: verif-driver list | run <prop> ...");
-        std::process::exit(2);
-    }
-    match args[1].as_str() {
-        "list" => {
-            let v: Vec<serde_json::Value> = registry()
-                .iter()
-                .map(|p| {
-                    serde_json::json!({
-                        "id": p.id, "level": p.level, "rule": p.rule, "assumptions": p.assumptions,
-                        "profiles": format!("{:?}", p.profiles), "min_nontrivial": p.min_nontrivial,
-                        "required_counters": p.required_counters, "exhaustive": p.exhaustive, "crash_is_violation": p.crash_is_violation,
-                        "budget_quick": (p.budget_s)(Tier::Quick), "budget_thorough": (p.budget_s)(Tier::Thorough),
-                        "cases_quick": (p.cases)(Tier::Quick), "cases_thorough": (p.cases)(Tier::Thorough),
-                    })
-                })
-                .collect();
-            println!("{}", serde_json::to_string(&v).unwrap());
-        }
-        "run" => {
-            let id = args.get(2).cloned().unwrap_or_default();
-            let mut a = WorkerArgs { tier: Tier::Quick, seed: 1, shard: 0, nshards: 1, out: String::new(), only_idx: None };
-            let mut i = 3;
-            while i + 1 < args.len() + 1 && i < args.len() {
-                let v = args.get(i + 1).cloned().unwrap_or_default();
-                match args[i].as_str() {
-                    "--tier" => a.tier = if v == "thorough" { Tier::Thorough } else { Tier::Quick },
-                    "--seed" => a.seed = v.parse().unwrap_or(1),
-                    "--shard" => a.shard = v.parse().unwrap_or(0),
-                    "--nshards" => a.nshards = v.parse().unwrap_or(1),
-                    "--out" => a.out = v,
-                    "--idx" => a.only_idx = v.parse().ok(),
-                    other => {
-                        eprintln!("unknown argument {other}");
-                        std::process::exit(2);
-                    }
-                }
-                i += 2;
-            }
-            let reg = registry();
-            let Some(p) = reg.iter().find(|p| p.id.eq_ignore_ascii_case(&id)) else {
-                eprintln!("unknown property {id}");
-                std::process::exit(2);
-            };
-            std::process::exit(core::run_worker(p, &a));
-        }
-        _ => {
-            eprintln!("unknown command");
-            std::process::exit(2);
-        }
-    }
+    verif_driver::main_entry();
 }
